@@ -204,7 +204,7 @@ def user_names(chk):
             what = name_event(e, set())
             if isinstance(what, str) and what.startswith("option-lost"):
                 continue                 # the listed TypeScript finding (Option under a container), judged by the main enumeration
-            chk.mismatch(f"C05/{m[0]}/{m[1]}/pos={m[2]['pos']}/reference-name!=declared-name", f"{m[0]} ({m[1]}): type {m[2]['name']} is declared as "
+            chk.mismatch(f"{chk.pid}/{m[0]}/{m[1]}/pos={m[2]['pos']}/reference-name!=declared-name", f"{m[0]} ({m[1]}): type {m[2]['name']} is declared as "
                          f"`{m[4]}`, a reference in position {m[2]['pos']} is written {e['ty']}", {"src": m[5], "lang": m[0], "case": m[2]}, "TypeExpr!Conf", e["ty"])
     chk.extra["user_name_events"] = len(idx)
 
